@@ -19,6 +19,9 @@ EXPLANATION = (
 EXPLANATION += (
     ' T6 the control-flow constants of the lowerer (which switch index means true / Some / continue) and the literal default types by name.'
 )
+EXPLANATION += (  # round-3 supplement
+    ' T7 the default chain of a `match` (variants no arm names) selects arms with the same predicate as the wildcard part of every per-variant chain. T8 every constant answer of the equality lowering depends on `negated`.'
+)
 ASSUMPTIONS = [
     "cranelift's documented instruction semantics (iadd wraps, sdiv truncates toward zero, IntCC/FloatCC meanings)",
     "control-flow lowering and the rest of code generation are not decided by this check",
